@@ -4,7 +4,8 @@ import os, re, subprocess
 TIE_MODULE = T + "Ties"
 TIE_THEOREMS = ["C03_tie_signedarea", "C03_tie_op_area", "C03_tie_Centroid_core", "C03_tie_op_Centroid_core",
                 "C03_tie_area", "C03_tie_Polygon_Area", "C03_tie_ringBounds", "C03_tie_MultiPolygon_Area",
-                "C03_tie_MultiPolygon_Centroid_core", "C03_tie_bounds_Area", "C03_tie_bounds_Centroid",
+                "C03_tie_MultiPolygon_Centroid_core", "C03_tie_centroidAxisScale", "C03_tie_centroidScale", "C03_tie_scaled",
+                "C03_tie_Centroid", "C03_tie_MultiPolygon_Centroid", "C03_tie_bounds_Area", "C03_tie_bounds_Centroid",
                 "C03_tie_op_length", "C03_tie_LineString_Length", "C03_tie_MultiLineString_Length",
                 "C03_tie_pointSubtract", "C03_tie_dot", "C03_tie_norm", "C03_tie_d", "C03_tie_distPointToSegment_core", "C03_tie_distPointToSegment",
                 "C03_tie_LineString_Distance", "C03_tie_MultiLineString_Distance", "C03_tie_Buffer"]
@@ -48,7 +49,7 @@ def pregen(check):
 
 CFG = {
     "id": "C03",
-    "lean_modules": ["GeomV.C03.Proofs", "GeomV.C03.ProofsScale", "GeomV.C03.ProofsMScale", "GeomV.C03.ProofsTouch", "GeomV.C03.ProofsOrder"],
+    "lean_modules": ["GeomV.C03.Proofs", "GeomV.C03.ProofsScale", "GeomV.C03.ProofsMScale", "GeomV.C03.ProofsTouch", "GeomV.C03.ProofsOrder", "GeomV.C03.ProofsSpecScale", "GeomV.C03.ProofsOpArea"],
     "exe": "geomv_c03",
     "go_cmd": "c03",
     "stages": ["go:gen", "go:impl", "lean:judge"],
@@ -65,7 +66,8 @@ CFG = {
         "C03_centroid_valid_guarded", "op_agrees_centroid_guarded", "C03_mcentroid_guarded",
         "pip_scale", "ringArea_scale", "C03_area_scale", "multiPolygonCentroidCore_scale", "C03_mcentroid_guard", "C03_mcentroid_guarded_all",
         "C03_area_touch", "C03_marea_touch", "C03_mcentroid_touch", "C03_mcentroid_touch_guarded", "C03_centroid_valid_touch",
-        "C03_area_order", "C03_area_anyorder", "C03_area_holefirst", "C03_mcentroid_anyorder", "C03_centroid_order", "C03_centroid_valid_anyorder"]],
+        "C03_area_order", "C03_area_anyorder", "C03_area_holefirst", "C03_mcentroid_anyorder", "C03_centroid_order", "C03_centroid_valid_anyorder",
+        "sideRings_scale", "C03_validPoly_scale", "C03_validPolyT_scale", "C03_validAny_scale", "C03_specArea_scale", "C03_validPoly_mul", "C03_validPolyT_mul", "C03_shellIndex_scale", "C03_opArea", "C03_opMArea"]],
     "trusted_base": [
         "Lean 4.33.0 kernel; axioms of every theorem printed by #print axioms must be within {propext, Classical.choice, Quot.sound}",
         "Mathlib v4.33 modules imported by GeomV/C03/Lemmas*.lean and Proofs.lean (checked by the same kernel)",
@@ -89,12 +91,13 @@ CFG["lean_modules"].append(TIE_MODULE)
 CFG["theorems"] += [T + n for n in TIE_THEOREMS]
 CFG["pregen"] = pregen
 CFG["trusted_base"].append(
-    "T1: harness/cmd/c03/extract.go (go/ast, translation table in its header) regenerates lean/GeomV/C03/Gen.lean from area.go (signedarea, area, Polygon.Area, Polygon.ringBounds, the loop of Polygon.Centroid below its range guard), "
-    "multipolygon.go (Area, the loops of Centroid below its range guard), op/properties.go (area, length, the loop of Centroid on a Polygon below its range guard), bounds.go (Area, Centroid), linestring.go / multilinestring.go (Length, Distance), "
+    "T1: harness/cmd/c03/extract.go (go/ast, translation table in its header) regenerates lean/GeomV/C03/Gen.lean from area.go (signedarea, area, Polygon.Area, Polygon.ringBounds, centroidAxisScale, centroidScale, Polygon.scaled, Polygon.Centroid with its range guard), "
+    "multipolygon.go (Area, Centroid with its range guard), op/properties.go (area, length, the loop of Centroid on a Polygon below its range guard), bounds.go (Area, Centroid), linestring.go / multilinestring.go (Length, Distance), "
     "simplify.go (pointSubtract, dot, norm, d, distPointToSegment), point.go (Buffer) of the tree under test on every run, in a faulting monad (index, index assignment, slice, make, integer %, nil box, panic are partial: GenLib.lean; loops with return/continue keep their control flow); "
-    "Ties.lean proves that each regenerated function returns the model's value (areas, lengths, distances, MultiPolygon/op centroid loops: WITHOUT FAULT for every input; Polygon.Centroid loop, Point.Buffer: fault for fault; area: for the boxes of the rings of p and i < len(p)). "
+    "Ties.lean proves that each regenerated function returns the model's value (areas, lengths, distances, MultiPolygon/op centroids: WITHOUT FAULT for every input; Polygon.Centroid, Point.Buffer: fault for fault; area: for the boxes of the rings of p and i < len(p); scaled: for non-zero factors). "
     "Recognised statement groups, refused (exit 3, tie broken) when their text changes: the accumulator group `cx /= 6*d; cy /= 6*d; A += w; xA += cx*w; yA += cy*w` / `var A, xA, yA float64` / `return Point{xA/A, yA/A}` = CAcc.add / CAcc.zero / CAcc.finish (float division by zero); "
-    "the range guard of distPointToSegment (`if m := E; (m >= 0x1p500 || (m <= 0x1p-500 && m > 0)) && !math.IsInf(m, 0) { _, e := math.Frexp(m); k := math.Ldexp(1, e-1); return k * distPointToSegment(...) }`, compared as text) = `match RNum.rescale E` with the recursive call read as the code below the guard; "
-    "the range guards at the head of the three centroid functions are cut off by their shape and NOT regenerated (centroidScale, scaled: tied by the correspondence run); "
+    "the body of centroidAxisScale (compared as text) = axisScale (Frexp/Ldexp over Rat = pow2Floor); `return Point{X: c.X * kx, Y: c.Y * ky}` in a centroid guard = unscale; the guard of distPointToSegment (`if m := E; (m >= 0x1p500 || (m <= 0x1p-500 && m > 0)) && !math.IsInf(m, 0) { _, e := math.Frexp(m); k := math.Ldexp(1, e-1); return k * distPointToSegment(...) }`, compared as text) = `match RNum.rescale E`; "
+    "a function's call of itself inside its range guard (Polygon.Centroid, MultiPolygon.Centroid, distPointToSegment on the rescaled copy) is read as the code below the guard; the guard of op.Centroid (inline) is cut off and NOT regenerated (tied by the correspondence run); "
     "calls into other files are the models' functions: pointInPolygon = property C02's model of within.go with the boxes the code passes, pointsSimilar. "
-    "Not modelled by the translation: slice capacity (taken = length), aliasing (observed by the harness), a nil *Bounds receiver of bounds.go's Area/Centroid, op.Area/op.Length/op.Centroid's type switches")
+    "Not modelled by the translation: slice capacity (taken = length), aliasing (observed by the harness), a nil *Bounds receiver of bounds.go's Area/Centroid, the type switches of op.Area/op.Length/op.Centroid; "
+    "in the exact (Rat) rendering a float64 division by a computed zero ends the rendering (Go.Fault.nonFinite; only in Polygon.scaled, proved not to occur for the factors centroidScale returns)")
